@@ -780,3 +780,83 @@ Section MaurerAsProto.
     apply (maurer_simulator_verifies_b W X wadd wneg wzero wsmul xadd xneg xzero xsmul xeqb phi HW HX Hphi Heq).
   Qed.
 End MaurerAsProto.
+
+(* ---------- the exponent instance: Z_q (canonical representatives), phi(w) = g*w ----------
+   A prime-order group <G> is Z_q in the exponent; Schnorr's homomorphism w |-> w*G is
+   multiplication by the exponent g of G.  The laws hold for every modulus q > 0. *)
+From Coq Require Import Eqdep_dec.
+
+Section Zq.
+  Variable q : Z.
+  Hypothesis q_pos : 0 < q.
+
+  Record zq := mkzq { zv : Z; zok : (zv mod q =? zv) = true }.
+
+  Lemma zq_eq a b : zv a = zv b -> a = b.
+  Proof.
+    destruct a as [x Hx], b as [y Hy]. cbn. intros ->. f_equal.
+    apply UIP_dec. apply Bool.bool_dec.
+  Qed.
+
+  Lemma zq_of_ok x : ((x mod q) mod q =? x mod q) = true.
+  Proof.
+    destruct (Z.eq_dec q 0) as [E|E].
+    - rewrite E, !Zmod_0_r. apply Z.eqb_refl.
+    - apply Z.eqb_eq. apply Z.mod_mod. exact E.
+  Qed.
+
+  Definition zq_of (x : Z) : zq := mkzq (x mod q) (zq_of_ok x).
+  Definition zadd (a b : zq) : zq := zq_of (zv a + zv b).
+  Definition zneg (a : zq) : zq := zq_of (- zv a).
+  Definition zzero : zq := zq_of 0.
+  Definition zsmul (n : Z) (a : zq) : zq := zq_of (n * zv a).
+  Definition zeqb (a b : zq) : bool := zv a =? zv b.
+
+  Lemma zv_red a : zv a mod q = zv a.
+  Proof. destruct a as [x Hx]. cbn. apply Z.eqb_eq. exact Hx. Qed.
+
+  Lemma zq_ab_action : ab_action zadd zneg zzero zsmul.
+  Proof.
+    unfold ab_action, zadd, zneg, zzero, zsmul. repeat split; intros; apply zq_eq; cbn [zv zq_of].
+    - rewrite Zplus_mod_idemp_r, Zplus_mod_idemp_l. f_equal. ring.
+    - f_equal. ring.
+    - rewrite Z.mod_0_l by lia. cbn. apply zv_red.
+    - rewrite Zplus_mod_idemp_l. replace (- zv a + zv a) with 0 by ring. reflexivity.
+    - rewrite <- Zplus_mod. f_equal. ring.
+    - rewrite Zmult_mod_idemp_r. f_equal. ring.
+    - rewrite Z.mul_1_l. apply zv_red.
+    - rewrite Zmult_mod_idemp_r, <- Zplus_mod. f_equal. ring.
+  Qed.
+
+  Definition zphi (g : Z) (w : zq) : zq := zq_of (g * zv w).
+
+  Lemma zphi_is_hom g : is_hom zadd zsmul zadd zsmul (zphi g).
+  Proof.
+    unfold is_hom, zphi, zadd, zsmul. split; intros; apply zq_eq; cbn [zv zq_of].
+    - rewrite Zmult_mod_idemp_r, <- Zplus_mod. f_equal. ring.
+    - rewrite !Zmult_mod_idemp_r. f_equal. ring.
+  Qed.
+
+  Lemma zeqb_decides : decides_eq zeqb.
+  Proof.
+    intros a b. unfold zeqb. rewrite Z.eqb_eq. split; [apply zq_eq|intros ->; reflexivity].
+  Qed.
+
+  (* the anchor of the prime-order instances: u = 0, l = q *)
+  Lemma zq_anchor g x : zphi g zzero = zsmul q x.
+  Proof.
+    apply zq_eq. unfold zphi, zzero, zsmul. cbn [zv zq_of].
+    rewrite Z.mod_0_l by lia. rewrite Z.mul_0_r, Z.mod_0_l by lia.
+    symmetry. rewrite Z.mul_comm. apply Z.mod_mul. lia.
+  Qed.
+End Zq.
+
+Theorem zq_instance : forall (q g : Z), 0 < q ->
+  ab_action (zadd q) (zneg q) (zzero q) (zsmul q) /\
+  is_hom (zadd q) (zsmul q) (zadd q) (zsmul q) (zphi q g) /\
+  decides_eq (zeqb q) /\
+  forall x, zphi q g (zzero q) = zsmul q q x.
+Proof.
+  intros q g Hq. split; [apply zq_ab_action; exact Hq|]. split; [apply zphi_is_hom; exact Hq|].
+  split; [apply zeqb_decides|]. intros x. apply zq_anchor. exact Hq.
+Qed.
